@@ -56,6 +56,8 @@ def make_case(rng, tier):
             budget -= 1
     if kind == "gillespie" or rng.random() < 0.3:
         calls = [["iterate"]] * (nsteps + 3)
+    # the output is also fetched along the way in a third of the runs (a pure read: what is fetched at the end is unaffected)
+    c["peeks"] = [rng.random() < 0.3 for _ in calls] if rng.random() < 0.35 else []
     # in which unit each time quantity is handed to RDScript
     su = c["units"][1]
     def unit():
@@ -114,7 +116,7 @@ def observe(c):
     states = {0.0: cur_state()}
     flags, prog, clock = [], [], [0.0]
     single = all(k[0] in ("iterate", "sample", "run") for k in c["calls"])
-    for call in c["calls"]:
+    for k_call, call in enumerate(c["calls"]):
         if call[0] == "iterate":
             eng.iterate()
         elif call[0] == "iterate_n":
@@ -123,6 +125,8 @@ def observe(c):
             eng.run(0)
         else:
             eng.sample()
+        if k_call < len(c.get("peeks", [])) and c["peeks"][k_call]:
+            eng.get_output()
         flags.append(bool(eng.is_complete()))
         prog.append(float(eng.get_progress()))
         t = float(lib.engineexport_get_time())
